@@ -17,7 +17,7 @@ from fractions import Fraction as F
 import numpy as _np
 import z3
 
-from . import core, trig, proxy, solve
+from . import core, trig, proxy, solve, algcert, sqabs
 from . import harness as hz
 from .core import CTX, SR, SymnpUnsupported, explore
 from .harness import H, REGISTRY, run_conc, classify_exception
@@ -47,6 +47,43 @@ def _envjson(env):
     return {k: (str(v) if isinstance(v, F) else v) for k, v in (env or {}).items()}
 
 
+def _reach_ok(r):
+    return r is not None and r.get('status') == 'sat'
+
+
+def angle_info(p):
+    """input angle atoms whose value must be derived from their (cos, sin) unit variables"""
+    info = {}
+    for name, at in p.atoms.items():
+        if name in p.inputs:
+            best = None
+            for (n, md), (c, s_) in p.units.items():
+                if n == name and (best is None or md > best[0]):
+                    best = (md, str(c), str(s_))
+            if best is not None:
+                info[name] = dict(md=best[0], c=best[1], s=best[2], unit=at['unit'])
+    return info
+
+
+def fix_angles(env, ainfo):
+    """the angle variable is only loosely tied to its (c, s) pair in the encoding: recompute it from the pair"""
+    import math
+    for name, d in (ainfo or {}).items():
+        if d['c'] in env and d['s'] in env:
+            a = d['md'] * math.atan2(builtins.float(F(env[d['s']]) if isinstance(env[d['s']], str) else env[d['s']]),
+                                     builtins.float(F(env[d['c']]) if isinstance(env[d['c']], str) else env[d['c']]))
+            env[name] = a if d['unit'] == 'rad' else a * 180.0 / math.pi
+    return env
+
+
+def want_vars(p):
+    w = dict(p.inputs)
+    for name, d in angle_info(p).items():
+        w[d['c']] = z3.Real(d['c'])
+        w[d['s']] = z3.Real(d['s'])
+    return w
+
+
 def _fidelity_witness(p, hh, rng):
     full = (len(p.domain), len(p.pc), len(p.defs), len(p.assumes))
     base = _constraints(p, full)
@@ -66,10 +103,11 @@ def _fidelity_witness(p, hh, rng):
             continue
         m = s.model()
         env = {}
-        for n, v in p.inputs.items():
+        for n, v in want_vars(p).items():
             val = solve.model_value(m, v)
             if val is not None:
                 env[n] = val
+        env = fix_angles(env, angle_info(p))
         outs = {}
         try:
             for n, arr in hh.outs.items():
@@ -121,7 +159,7 @@ def fidelity_compare(pid, hname, fw, tier='quick', tol=1e-6):
     return n, bad, detail
 
 
-def _sym_worker(pid, hname, tier, conn, quick_ms):
+def _sym_worker(pid, hname, tier, conn, quick_ms, roots=None):
     """runs in a forked child: explore + in-process solving. Sends a picklable result dict."""
     t0 = time.time()
     result = dict(harness=hname, paths=0, truncated=False, records=[], unsupported=[], events=[], stats={},
@@ -148,7 +186,7 @@ def _sym_worker(pid, hname, tier, conn, quick_ms):
 
         core.PathResult.__slots__  # noqa
         max_paths = h.max_paths if tier == 'quick' else h.max_paths * 4
-        paths, truncated = explore(fn, max_paths=max_paths, on_path=lambda p: holders.append(cur[0]))
+        paths, truncated = explore(fn, max_paths=max_paths, on_path=lambda p: holders.append(cur[0]), roots=roots)
         result['paths'] = len(paths)
         result['truncated'] = truncated
         tmo = quick_ms if quick_ms else h.timeout_ms
@@ -182,11 +220,23 @@ def _sym_worker(pid, hname, tier, conn, quick_ms):
             for ev in p.events:
                 result['events'].append(ev)
             # reachability witness
-            if reach is None:
+            if reach is None or reach.get('status') != 'sat':
                 st, env, dt = solve.solve_inproc(_constraints(p, (len(p.domain), len(p.pc), len(p.defs), len(p.assumes))),
-                                                 max(tmo, 5000), p.inputs)
+                                                 max(tmo, 5000), want_vars(p))
                 if st == 'sat':
-                    reach = dict(path=pi, env=_envjson(env))
+                    reach = dict(path=pi, status='sat', env=_envjson(fix_angles(env, angle_info(p))))
+                elif st == 'unknown' or reach is None:
+                    reach = dict(path=pi, status=st if reach is None or st == 'unknown' else reach['status'])
+            # deferred branch sides (taken on sample evidence only): "this side is infeasible" is an obligation
+            for dsd in p.deferred:
+                cons = _constraints(p, dsd['snap']) + [dsd['bad']]
+                st, env, dt = solve.solve_inproc(cons, 300, None)
+                rec = dict(path=pi, name='unexplored branch side is infeasible', kind='side', status=st, by='z3-5.1-inproc',
+                           secs=round(dt, 3), prefix=[[bool(a), bool(b)] for a, b in dsd['prefix']])
+                if st == 'unknown':
+                    rec['smt2'] = solve.to_smt2(cons)
+                    rec['vars'] = []
+                result['records'].append(rec)
             # fidelity witness: a generic model of this path and the value of every observed output term under it
             if hh is not None and hh.outs and len(result['fidelity']) < 4 and outcome == 'ok':
                 fw = _fidelity_witness(p, hh, rng)
@@ -194,17 +244,34 @@ def _sym_worker(pid, hname, tier, conn, quick_ms):
                     fw['path'] = pi
                     result['fidelity'].append(fw)
             for o in obls:
-                cons = _constraints(p, o['snap']) + [o['bad']]
-                st, env, dt = solve.solve_inproc(cons, tmo, p.inputs)
-                rec = dict(path=pi, name=o['name'], kind=o['kind'], status=st, by='z3-5.1-inproc', secs=round(dt, 3))
+                base = _constraints(p, o['snap'])
+                cons = base + [o['bad']]
+                if o['kind'] == 'check':
+                    tc = time.time()
+                    ok, info = algcert.try_certify(base, o['bad'])
+                    if ok:
+                        result['records'].append(dict(path=pi, name=o['name'], kind=o['kind'], status='unsat',
+                                                      by='z3-5.1 (algebraic certificate)', secs=round(time.time() - tc, 3)))
+                        continue
+                tq = time.time()
+                if o['kind'] != 'check' or algcert.split_equality(o['bad']) is None:
+                    if sqabs.try_refute(cons):
+                        result['records'].append(dict(path=pi, name=o['name'], kind=o['kind'], status='unsat',
+                                                      by='z3-5.1 (square abstraction)', secs=round(time.time() - tq, 3)))
+                        continue
+                st, env, dt = solve.solve_inproc(cons, tmo, want_vars(p))
+                by = 'z3-5.1-inproc'
+                rec = dict(path=pi, name=o['name'], kind=o['kind'], status=st, by=by, secs=round(dt, 3))
                 if st == 'sat':
-                    rec['env'] = _envjson(env)
+                    rec['env'] = _envjson(fix_angles(env, angle_info(p)))
                 elif st == 'unknown':
                     rec['smt2'] = solve.to_smt2(cons)
-                    rec['vars'] = list(p.inputs)
+                    rec['vars'] = list(want_vars(p))
+                    rec['angles'] = angle_info(p)
                 result['records'].append(rec)
         result['reach'] = reach
         result['stats'] = dict(CTX.stats)
+        result['stats']['algcert'] = dict(algcert.STATS)
     except BaseException as e:   # engine failure
         result['error'] = f"{type(e).__name__}: {e}\n{traceback.format_exc(limit=8)}"
     result['wall'] = round(time.time() - t0, 2)
@@ -216,17 +283,19 @@ def _sym_worker(pid, hname, tier, conn, quick_ms):
     conn.close()
 
 
-def run_workers(pid, names, tier, jobs, wall_limit, quick_ms=None, log=print):
-    """run sym workers with bounded parallelism; kill the ones exceeding wall_limit"""
+def run_workers(pid, names, tier, jobs, wall_limit, quick_ms=None, log=print, roots=None):
+    """run sym workers with bounded parallelism; kill the ones exceeding wall_limit.
+    roots: optional {harness: [schedule prefixes]} (second-round exploration)"""
     ctx = mp.get_context('fork')
     pending = list(names)
+    roots = roots or {}
     running = {}
     results = {}
     while pending or running:
         while pending and len(running) < jobs:
             n = pending.pop(0)
             a, b = ctx.Pipe(duplex=False)
-            pr = ctx.Process(target=_sym_worker, args=(pid, n, tier, b, quick_ms), daemon=True)
+            pr = ctx.Process(target=_sym_worker, args=(pid, n, tier, b, quick_ms, roots.get(n)), daemon=True)
             pr.start()
             b.close()
             running[n] = (pr, a, time.time())
@@ -271,7 +340,7 @@ def escalate(results, timeout_s, jobs, log=print):
     if not todo:
         return 0
     workdir = tempfile.mkdtemp(prefix='symnp_')
-    per = max(1, len(solve.BINS))
+    per = 2
 
     def one(rec):
         st, env, by, dt, detail = solve.portfolio(rec['smt2'], timeout_s, rec.get('vars'), workdir=workdir)
@@ -280,7 +349,7 @@ def escalate(results, timeout_s, jobs, log=print):
         rec['secs'] = round(rec.get('secs', 0) + dt, 3)
         rec['portfolio'] = detail
         if st == 'sat':
-            rec['env'] = _envjson(env)
+            rec['env'] = _envjson(fix_angles(env or {}, rec.get('angles')))
         if st != 'unknown':
             rec.pop('smt2', None)
         return rec
